@@ -138,6 +138,52 @@ Proof. exact (@RevolveRun.revolve_terminates). Qed.
 Print Assumptions C02_revolve_terminates.
 End M_C02_revolve_terminates.
 
+(* completeness (DiskRevolve, snapshots_in_ram >= 1): the op list is finite; from 2 |ops| + 2 requests on the schedule is exhausted, nothing raised on the way, and the only executor verdict possible besides "no error" is E_leftover at the final EndReverse (D8-C04) *)
+Module M_C02_disk_revolve_terminates.
+Import DiskRun.
+Theorem C02_disk_revolve_terminates :
+  forall N ram disk uf ub wd rd : Z,
+         1 <= N ->
+         1 <= ram ->
+         exists (L : list Ops.op) (K : nat),
+           RevConv.sequence RevConv.KDiskRevolve N ram disk uf ub wd rd = Actions.Ok L /\
+           (forall k : nat,
+            (K <= k)%nat ->
+            let
+            '(s', m, ls) :=
+             Sched.run_ops (disk_xparams N ram)
+               {|
+                 Sched.ob := Sched.ORevF RevConv.KDiskRevolve N ram disk (RevConv.init_r L);
+                 Sched.started := false
+               |} Sched.mon0 (repeat Sched.Next k) in
+             RunFacts.no_raise ls /\ DiskBridge3.leftover_or_ok m /\ Sched.is_exhausted s' = true).
+Proof. exact (@DiskRun.disk_revolve_terminates). Qed.
+Print Assumptions C02_disk_revolve_terminates.
+End M_C02_disk_revolve_terminates.
+
+(* completeness (PeriodicDiskRevolve): the same *)
+Module M_C02_periodic_terminates.
+Import DiskRun.
+Theorem C02_periodic_terminates :
+  forall N ram disk uf ub wd rd : Z,
+         1 <= N ->
+         1 <= ram ->
+         exists (L : list Ops.op) (K : nat),
+           RevConv.sequence RevConv.KPeriodic N ram disk uf ub wd rd = Actions.Ok L /\
+           (forall k : nat,
+            (K <= k)%nat ->
+            let
+            '(s', m, ls) :=
+             Sched.run_ops (disk_xparams N ram)
+               {|
+                 Sched.ob := Sched.ORevF RevConv.KPeriodic N ram disk (RevConv.init_r L);
+                 Sched.started := false
+               |} Sched.mon0 (repeat Sched.Next k) in
+             RunFacts.no_raise ls /\ DiskBridge3.leftover_or_ok m /\ Sched.is_exhausted s' = true).
+Proof. exact (@DiskRun.periodic_terminates). Qed.
+Print Assumptions C02_periodic_terminates.
+End M_C02_periodic_terminates.
+
 (* completeness (Mixed, both planner paths): within N (N + 3) + N + 2 requests the schedule is exhausted (EndReverse has been emitted, by C09_flags), and by then exactly C N S forward steps have been executed *)
 Module M_C02_mixed_terminates.
 Import MixBridge.
